@@ -1,3 +1,4 @@
 SPECIFICATION TraceSpec
-CONSTANT Focus = "files"
+CONSTANTS Focus = "files"
+ Strict = FALSE
 CHECK_DEADLOCK FALSE
